@@ -31,7 +31,7 @@ LEVEL_TEXT = ("Fault enumeration: each fault class named by the property is appl
               "TreeBuilder and through OFXTree.parse with a header.")
 LEVEL_NOTE = "Trusts ref_sgml.py; truncation inside a multi-byte UTF-8 sequence is done at character level (the header layer is C05's business)."
 DESIGN_REF = "DESIGN.md §3 C08"
-MIN_COUNTERS = {"quick": {"illformed_cases_with_comments": 8000, "via_reused_OFXTree": 8000, "via_interleaved_builders": 8000, "illformed_cases": 20000, "benign_cases": 500, "via_OFXTree_parse": 500},
+MIN_COUNTERS = {"quick": {"illformed_cases_with_comments": 6000, "via_reused_OFXTree": 8000, "via_interleaved_builders": 8000, "illformed_cases": 20000, "benign_cases": 500, "via_OFXTree_parse": 500},
                 "thorough": {"via_reused_OFXTree": 100000, "via_interleaved_builders": 100000, "illformed_cases": 1000000, "benign_cases": 8000, "via_OFXTree_parse": 100000}}
 
 TOKEN_RE = re.compile(r"<[^<>]*>")
@@ -43,7 +43,7 @@ def shards(tier):
 
 
 def timeout(tier):
-    return 300 if tier == "quick" else 2400
+    return 900 if tier == "quick" else 5400
 
 
 def lib_tb(text):
